@@ -45,7 +45,7 @@ import numpy as np
 import core
 
 LEAN_MODULE = "Optyx.Props.C14"
-EXTRA_MODULES = ["Optyx.Props.PinsC14", "Optyx.Props.StateTie", "Optyx.Props.BuildTie", "Optyx.Props.VarsStepTie"]   # transcription anchors (harness/source_pins.py)
+EXTRA_MODULES = ["Optyx.Props.PinsC14", "Optyx.Props.StateTie", "Optyx.Props.BuildTie", "Optyx.Props.VarsStepTie", "Optyx.Props.DegreeEntryTie"]   # transcription anchors (harness/source_pins.py)
 THEOREMS = [
     "Optyx.Props.C14.cache_transparent",
     "Optyx.Props.C14.cache_transparent_run",
@@ -62,6 +62,12 @@ THEOREMS = [
     "Optyx.Props.VarsStepTie.exprVars_step",
     "Optyx.Props.VarsStepTie.step_unique",
     "Optyx.Props.VarsStepTie.matrixVariableGetVariables_text",
+    "Optyx.Props.DegreeEntryTie.isLinear_eq",
+    "Optyx.Props.DegreeEntryTie.isQuadratic_eq",
+    "Optyx.Props.DegreeEntryTie.computeDegree_eq",
+    "Optyx.Props.DegreeEntryTie.encodeDeg_eq",
+    "Optyx.Props.DegreeEntryTie.readDegree_int",
+    "Optyx.Props.DegreeEntryTie.slot_roundtrip",
     "Optyx.Props.PinsC14.anchors",
 ]
 ASSUMPTIONS = [
